@@ -1046,3 +1046,7 @@ def replay(run, data) -> None:
         run_case(run, case['engine'], int(case.get('seed', data.get('seed', 0))), int(case['index']))
     run.case('pad', True)
     run.case('pad2', True)
+
+
+# (kept at the end of the file so that the text above stays the description the check was first built to)
+RULE += ' ' + 'Later additions: Particle.export() given a list / tuple / one-shot iterator / dict view; shader names that need quoting; the value that was read back is edited through its public attributes, written and read again (cmdseq, soundscripts, VMT, SMD).'
